@@ -45,3 +45,13 @@ Theorem only_an_announcement_arms_a_timer : forall c s e,
   incl (TimerFacts.armed (fst (step_ev c s e))) (TimerFacts.armed s).
 Proof. exact TimerFacts.armed_shrinks. Qed.
 Print Assumptions only_an_announcement_arms_a_timer.
+
+(* across reloads: a reload neither adds nor removes a request and prints nothing - the in-use figure and the live ids are those
+   before it (the theorems above speak of input lines; this one covers the other kind of event) *)
+Require ReloadCount.
+Theorem a_reload_keeps_the_requests : forall c s svs rs t,
+  map cid (reqs (fst (step_ev c s (Reload svs rs t)))) = map cid (reqs s) /\
+  List.length (reqs (fst (step_ev c s (Reload svs rs t)))) = List.length (reqs s) /\
+  snd (step_ev c s (Reload svs rs t)) = [].
+Proof. exact ReloadCount.reload_keeps_the_requests. Qed.
+Print Assumptions a_reload_keeps_the_requests.
